@@ -226,6 +226,9 @@ func init() {
 	for k, v := range finite {
 		loops[k] = v
 	}
+	// the runtime's call-depth limit is not an exception a script can catch: the "recursion" script, which catches what
+	// its recursion throws and starts over, ends with that error (it is a script that fails, not one that never ends)
+	finite["recursion"] = loops["recursion"]
 }
 
 func isFinite(name string) bool { _, is := finite[name]; return is }
